@@ -3,6 +3,18 @@
 From WG Require Import Base.Prelude Algo.Llp Algo.LlpStatements Algo.LlpFacts.
 Local Open Scope N_scope.
 
+(** every sequence that is a permutation of the node identifiers and sorted by the
+    comparator of [combine] / [labels_to_ranks] is the one the model computes: the result
+    does not depend on the (parallel, unstable) sorting algorithm *)
+Theorem C17_sort_unique : S_sort_unique.
+Proof. exact sort_unique. Qed.
+Print Assumptions C17_sort_unique.
+
+(** both comparators end with the node identifier (hypothesis of [S_sort_unique]) *)
+Example C17_keys_end_with_id :
+  forall result labels a, key_id (ckey result labels a) = a /\ key_id (rkey labels a) = a.
+Proof. intros. split; reflexivity. Qed.
+
 (** [combine]: two nodes get the same new label iff they had the same result label and the
     same label in the combined labeling *)
 Theorem C17_combine_refinement : S_combine_refinement.
